@@ -148,8 +148,64 @@ def run_all(ctx, tier, props=('C14', 'C10')):
                         ctx.violation('bounded/includes', 'include:cli', '%s via the CLI (relative paths, cwd with decoys): exit %d %s' % (case, p.returncode, p.stderr[-200:]),
                                       {'case': case, 'main': open(main).read(), 'stderr': p.stderr[-400:]}, confirmed=True)
             shutil.rmtree(work, ignore_errors=True)
+        if 'C14' in props:
+            repeated_includes(ctx, r, root)
     finally:
         shutil.rmtree(root, ignore_errors=True)
+
+
+SNIP = ['N = N + 1', 'snip_mark:', '    addi x5, x5, N', '    pack <I N', '    c.addi x8, 1']
+SPELLINGS = ['snip.asm', './snip.asm', 'sub/../snip.asm', '../proj/snip.asm', 'sub/deep/../../snip.asm', '"snip.asm"']
+
+
+def repeated_includes(ctx, r, root):
+    """the same file included several times (a macro-like snippet; labels and constants may be redefined), through every pair /
+    triple of spellings of its path, and as a diamond (two files that both include it): each include line is replaced by the
+    file's lines every time"""
+    ctx.b_rule('includes-repeated: one snippet included 2 and 3 times through %d spellings of its path (bare, ./, sub/../, ../proj/, quoted), '
+               'and a diamond (main includes a and b, both include the snippet, a from a subdirectory), compared with the hand-spliced text' % len(SPELLINGS))
+    cases = [(a, b) for a in SPELLINGS for b in SPELLINGS] + [(a, a, a) for a in SPELLINGS] + [('snip.asm', '../proj/snip.asm', 'snip.asm')]
+    for k, names in enumerate(cases + ['diamond', 'nested-twice']):
+        work = tempfile.mkdtemp(prefix='r_', dir=root)
+        proj = os.path.join(work, 'proj')
+        os.makedirs(os.path.join(proj, 'sub', 'deep'))
+        open(os.path.join(proj, 'snip.asm'), 'w').write('\n'.join(SNIP) + '\n')
+        head = ['N = 0', 'start:', '    addi x1, x1, 1']
+        if names == 'diamond':
+            open(os.path.join(proj, 'sub', 'a.asm'), 'w').write('a_lbl:\ninclude ../snip.asm\n    addi x2, x2, 2\n')
+            open(os.path.join(proj, 'b.asm'), 'w').write('b_lbl:\ninclude snip.asm\n    addi x3, x3, 3\n')
+            main_lines = head + ['include sub/a.asm', 'include b.asm', 'end:']
+            spliced = head + ['a_lbl:'] + SNIP + ['    addi x2, x2, 2', 'b_lbl:'] + SNIP + ['    addi x3, x3, 3', 'end:']
+        elif names == 'nested-twice':
+            open(os.path.join(proj, 'twice.asm'), 'w').write('include snip.asm\ninclude snip.asm\n')
+            main_lines = head + ['include twice.asm', 'include twice.asm', 'include snip.asm', 'end:']
+            spliced = head + SNIP * 5 + ['end:']
+        else:
+            main_lines = list(head)
+            spliced = list(head)
+            for nm in names:
+                main_lines += ['include ' + nm, '    addi x4, x4, 4']
+                spliced += SNIP + ['    addi x4, x4, 4']
+            main_lines.append('end:')
+            spliced.append('end:')
+        main = os.path.join(proj, 'main.asm')
+        open(main, 'w').write('\n'.join(main_lines) + '\n')
+        exp_src = '\n'.join(spliced) + '\n'
+        for compress in (False, True):
+            exp = r.assemble(exp_src, compress=compress)
+            if 'ok' not in exp:
+                if hasattr(ctx, 'errors'):
+                    ctx.errors.append('includes harness: the hand-spliced repeated program does not assemble: %s' % str(exp)[:200])
+                continue
+            for cwd in (proj, '/'):
+                got = r.assemble(main, compress=compress, cwd=cwd)
+                case = 'repeated|%s|c%d|cwd=%s' % (names if isinstance(names, str) else '+'.join(names), compress, os.path.basename(cwd) or '/')
+                ctx.b_eval('includes', case, nontrivial=True, sample={'case': case})
+                if not (got.get('ok') == exp['ok'] and got.get('labels') == exp['labels'] and got.get('constants') == exp['constants']):
+                    ctx.violation('bounded/includes', 'include:splice', '%s: including differs from the hand-spliced program: %s vs %s' % (
+                        case, str({k2: got.get(k2) for k2 in ('ok', 'exc', 'msg')})[:160], str(exp.get('ok'))[:60]),
+                        {'case': case, 'main': open(main).read(), 'spliced': exp_src, 'cwd': cwd, 'got': got, 'expected': exp}, confirmed=True)
+        shutil.rmtree(work, ignore_errors=True)
 
 
 def replay(ctx, d, model):
